@@ -10,7 +10,7 @@ core.register("C08", "Props.C08", "theories/Props/C08.vo",
               ["C08_removed_after_durable", "C08_oldest_first", "C08_liveness", "C08_pop_obsolete_spec_partial",
                "C08_only_dead_partial"])
 core.register("C14", "Props.C14", "theories/Props/C14.vo", ["C14_quiescent", "C14_drain_terminates"])
-core.register("C03", "Props.C03", "theories/Props/C03.vo", [])
+core.register("C03", "Props.C03", "theories/Props/C03.vo", ["C03_prefix_no_purge_partial", "C03_nonvacuous"])
 core.register("C05", "Props.C05", "theories/Props/C05.vo",
               ["C05_refuted_gap", "C05_recovers_outside_known", "C05_process_crash_is_image"])
 core.register("C07", "Props.C07", "theories/Props/C07.vo",
